@@ -455,9 +455,11 @@ func (fr *Frame) callAsserts(key string, ord int) []CallAssert {
 		return nil
 	}
 	var out []CallAssert
-	for _, ca := range fr.contract.CallAsserts {
+	for i := range fr.contract.CallAsserts {
+		ca := &fr.contract.CallAsserts[i]
 		if (ca.Callee == key || fnShort(key) == ca.Callee) && (ca.Ord == 0 || ca.Ord == ord) {
-			out = append(out, ca)
+			ca.Used = true
+			out = append(out, *ca)
 		}
 	}
 	return out
